@@ -144,7 +144,7 @@ def run(mid: str, tier: str = "quick") -> bool:
         return ok
     caught = p.returncode == 1 and bool(sigs)
     status = "caught" if caught else ("MACHINERY" if p.returncode == 2 else "MISSED")
-    print(f"MUT {mid} C05 exit={p.returncode} {status} {sigs[:4]}", flush=True)
+    print(f"MUT {mid} C05 exit={p.returncode} {status} {sigs}", flush=True)
     if p.returncode == 2:
         print("\n".join(p.stdout.splitlines()[-15:]))
     return caught
